@@ -52,7 +52,8 @@ def realignment(input_mat: np.ndarray, dim: int | list[int] = None) -> np.ndarra
     dim_mat = input_mat.shape
     round_dim = np.round(np.sqrt(dim_mat))
     if dim is None:
-        dim = np.transpose(np.array([round_dim]))
+        # Both subsystems have equal dimension: the square root of the number of rows, respectively of columns.
+        dim = np.array([[round_dim[0], round_dim[0]], [round_dim[1], round_dim[1]]])
     if isinstance(dim, list):
         dim = np.array(dim)
 
